@@ -51,7 +51,7 @@ def parse_header(buf: bytes):
             raise HeaderError("truncated length word")
         (n,) = struct.unpack_from("<I", buf, pos)
         pos += 4
-        if n > 80 or pos + n > len(buf):
+        if n > 4096 or pos + n > len(buf):
             raise HeaderError(f"bad string length {n}")
         s = buf[pos : pos + n]
         pos += n
